@@ -1054,6 +1054,12 @@ def rule_status_exhaustive(ctx: Ctx, prog: Program) -> None:
             if not isinstance(n, ast.Return) or n.value is None:
                 continue
             vals = [n.value.body, n.value.orelse] if isinstance(n.value, ast.IfExp) else [n.value]
+            # a verdict held in a local before it is returned: what the local was assigned
+            for v_ in list(vals):
+                if isinstance(v_, ast.Name) and prog.fold(f.module, v_) is NO:
+                    for a_ in ast.walk(f.node):
+                        if isinstance(a_, ast.Assign) and len(a_.targets) == 1 and isinstance(a_.targets[0], ast.Name) and a_.targets[0].id == v_.id:
+                            vals.extend([a_.value.body, a_.value.orelse] if isinstance(a_.value, ast.IfExp) else [a_.value])
             for v_ in vals:
                 if isinstance(v_, (ast.Name, ast.Constant)):
                     c = prog.fold(f.module, v_)
